@@ -52,10 +52,14 @@ _op = st.one_of(
     st.tuples(st.just("reset")),
     st.tuples(st.just("drain"), st.integers(1, 9), _cur, st.booleans()),
 ).map(list)
+# a long run of spends: histories longer than any internal bounded buffer (the audit log keeps the last 1000 transactions)
+_burst = st.tuples(st.just("burst"), st.sampled_from([1001, 1100, 2050]), st.sampled_from([0, 0, 1]), _cur).map(list)
 
 
 def strategy(tier):
-    return st.fixed_dictionaries({"cfg": _cfg, "peer": _cfg, "ops": st.lists(_op, min_size=1, max_size=30)})
+    plain = st.lists(_op, min_size=1, max_size=30)
+    long = st.tuples(st.lists(_op, max_size=6), _burst, st.lists(_op, min_size=1, max_size=8)).map(lambda t: t[0] + [t[1]] + t[2])
+    return st.fixed_dictionaries({"cfg": _cfg, "peer": _cfg, "ops": st.integers(0, 24).flatmap(lambda k: long if k == 0 else plain)})
 
 
 _ENUM_CFGS = [
@@ -224,6 +228,27 @@ def judge(case):
                     break
                 spent += n_ok * cost
                 out.label("drain")
+            elif name == "burst":
+                _, n, cost, c = op
+                out.label("burst")
+                for _k in range(n):
+                    pre = _snap(a, ET)
+                    ok = a.consume(cost, "burst", et[c], allow_debt=False, priority=10)
+                    post = _snap(a, ET)
+                    dw = _w(post) - _w(pre)
+                    if ok and dw != -cost:
+                        out.fail("%s:%s:burst" % ("overcharge" if dw < -cost else "undercharge", CUR[c]),
+                                 "successful consume(%d, %s) number %d of a burst changed net worth by %d" % (cost, CUR[c], _k + 1, dw),
+                                 {"step": i, "op": op, "before": pre, "after": post})
+                        break
+                    if not ok and (dw != 0 or post[3] != pre[3]):
+                        out.fail("failed-spend-not-free:%s" % CUR[c], "failed consume number %d of a burst changed net worth" % (_k + 1),
+                                 {"step": i, "op": op, "before": pre, "after": post})
+                        break
+                    if ok:
+                        spent += cost
+                if out.findings:
+                    break
             elif name == "regen":
                 _, amt, c = op
                 a.regenerate(amt, et[c])
